@@ -73,7 +73,7 @@ class P(flow.Plan):
         out = []
 
         def mk(shape, clause, fn):
-            req = tracer_rec.gen(rng, shape)
+            req = tracer_rec.gen(rng, shape, allow_tiny=False)
             e = tracer_rec.record(req)
             fn(e)
             out.append({"meta": {"driver": "control", "U": tracer_rec.U, "control": {"clause": clause, "step": 1}}, "ev": [e]})
